@@ -765,6 +765,8 @@ def parse_template(text):
         if cur is None:
             if d == "features":
                 meta["features"] = rest.split()
+            elif d == "dropawait":
+                meta["dropawait"] = True
             elif d == "gsub":
                 mm = SUB_RE.match(rest)
                 if not mm:
@@ -937,6 +939,12 @@ def extract_item(item, meta, mutant=None, twin=False):
         apply_sub(anchor, k, text, tag, exact1, required)
     for (anchor, text, tag) in meta["gsubs"]:
         apply_sub(anchor, None, text, tag, False, required=False)
+    if meta.get("dropawait"):
+        # R-await: `E.await` -> `E` (the awaited calls are modelled as plain calls; only decisions are verified)
+        for k in range(len(ctoks) - 1):
+            if ctoks[k].text == "." and ctoks[k + 1].text == "await":
+                ed.replace(ctoks[k].start, ctoks[k + 1].end, "", "R-await")
+                fired.add("R-await")
     if mutant is not None:
         (label, anchor, k, text) = mutant
         h = select_match(ctoks, anchor, k, item.name + " mutant " + label)
